@@ -53,6 +53,21 @@ CLAIMED = {
         text="(a) From the signatures that correct replicas really produced in generated consensus runs (each correct key signs at most one payload per view - asserted) plus anything Byzantine keys sign, an adversary assembles double-sign evidence (re-paired, cross-view, partial, duplicated, unsigned-bit, expired ...) and slash lists: everyone the real evidence code implicates must, by the simulator's ground truth, have signed two payloads in that view; (b) generated chains with double-signer lists repeated across blocks/committees/protocol versions: per (validator, height) at most one stake reduction, per-block per-committee cap respected, rejected lists change nothing. Held on everything explored.",
         note="(a) trusts BLS unforgeability and uses a fixed committee per root height; (b) evidence expiry is enforced by the BFT evidence code (part a), not by the state machine.",
         tech=PBT + "adversarial evidence assembly against simulator ground truth; stateful history generation with a reference slashing model"),
+    "C12": dict(
+        cat="exploration",
+        text="State-aware generated staking histories (stake/edit/pause/unpause/unstake, non-sign windows, double-sign slashes incl. slash-to-zero and slashes of paused/unstaking/delegate records, parameter changes, protocol versions 1 and 2, small unstaking/pause windows) on the real state machine: after every block the staked, delegated and per-committee tallies must equal big-integer sums over the validator records, unstaking/paused markers must match records one-to-one, ApplyBlock must never fail on the proposer path, and from forks of reached states empty blocks must apply until every deferred marker has fired. Held on everything explored.",
+        note="Histories are bounded (10-20 blocks, <= 6 validators + pillars, evidence age <= 12 heights); look-ahead forks are taken whenever the marker/record/params fingerprint changes, not at every state.",
+        tech=PBT + "stateful history generation with raw-scan bookkeeping invariants and a no-wedge look-ahead on forked chains"),
+    "C13": dict(
+        cat="exploration",
+        text="Generated validator populations (ties at the cap, zero stakes, more validators than the cap, delegates and delegate caps, paused/unstaking mixes, total power >= 2^63) followed by generated history: for every height the committee and delegate set returned by the real state machine (LoadCommittee, TimeMachine views, copies; asked repeatedly, in shuffled order, through views taken before later commits, over > 64 heights so the shared cache rolls over) must equal a reference derived from a raw scan of the state as of that height (filter, stake-descending/address-descending sort, cap, power = stake, threshold floor(2T/3)+1 in big integers), every re-ask must equal the first answer, and a twin chain must agree. Held on everything explored.",
+        note="The tie-break asserted is the one the code documents (address descending); MaxCommitteeSize = 0 is rejected by Params.Check so 'cap 0 = unlimited' is exercised for delegates only.",
+        tech=PBT + "reference-model differential per historical height + repeat-query immutability invariant"),
+    "C04": dict(
+        cat="exploration",
+        text="Generated histories mixing all expressible message types, certificate results (rewards, non-signers, double-signers, order lock/close/reset), really signed certificate-results transactions of a second committee, governance changes, halvenings, faucet and amounts from 0 to 2^64-1: after every block, from a raw scan in big integers, total supply = accounts + pools + stakes, no amount exceeds the total, and the block-to-block change of the total equals scheduled mint + approved DAO mints + faucet top-ups - slash burns - undistributed reward remainder. Held on everything explored.",
+        note="The mint/burn accounting is re-derived by the harness from params, events and records (trusted model); no vesting sends, retired committees or DEX batches inside certificate results (those are C20's).",
+        tech=PBT + "stateful history generation with a big-integer conservation invariant and an independently re-derived mint/burn ledger"),
 }
 
 REASONS = {}  # property id -> reason when not claimed (default below)
